@@ -253,6 +253,54 @@ impl Shape {
         }
     }
 
+    /// the STYLED primitive moved with `Styled::translate` (mode 0) / `Styled::translate_mut` (mode 1), then drawn
+    pub fn draw_styled_translated<C: Col, T: DrawTarget<Color = C>>(&self, st: &PrimitiveStyle<C>, by: Point, mode: u32, t: &mut T) -> Result<(), T::Error> {
+        macro_rules! go {
+            ($s:expr) => {{
+                let styled = $s.into_styled(*st);
+                if mode == 0 {
+                    styled.translate(by).draw(t)
+                } else {
+                    let mut m = styled;
+                    m.translate_mut(by);
+                    m.draw(t)
+                }
+            }};
+        }
+        match self {
+            Shape::Rect(s) => go!(s),
+            Shape::Circle(s) => go!(s),
+            Shape::Ellipse(s) => go!(s),
+            Shape::RRect(s) => go!(s),
+            Shape::Triangle(s) => go!(s),
+            Shape::Sector(s, ..) => go!(s),
+            Shape::Arc(s, ..) => go!(s),
+            Shape::Line(s) => go!(s),
+            Shape::Polyline(v, off) => go!(Polyline::new(v).translate(*off)),
+        }
+    }
+
+    /// `pixels()` of the styled primitive observed through count / last / nth / size_hint / mixed consumption
+    pub fn pixels_protocol<C: Col>(&self, st: &PrimitiveStyle<C>, stride: usize) -> Value {
+        macro_rules! go {
+            ($s:expr) => {{
+                let styled = $s.into_styled(*st);
+                iter_protocol_with(|| styled.pixels(), stride, |Pixel(p, _)| *p)
+            }};
+        }
+        match self {
+            Shape::Rect(s) => go!(s),
+            Shape::Circle(s) => go!(s),
+            Shape::Ellipse(s) => go!(s),
+            Shape::RRect(s) => go!(s),
+            Shape::Triangle(s) => go!(s),
+            Shape::Sector(s, ..) => go!(s),
+            Shape::Arc(s, ..) => go!(s),
+            Shape::Line(s) => go!(s),
+            Shape::Polyline(v, off) => go!(Polyline::new(v).translate(*off)),
+        }
+    }
+
     /// `pixels()` of the styled primitive, pulled with a budget; returns (pixels, exhausted)
     pub fn pixels<C: Col>(&self, st: &PrimitiveStyle<C>, budget: usize) -> (Vec<Pixel<C>>, bool) {
         match self {
@@ -285,26 +333,78 @@ impl Shape {
 
 /// Style descriptor: {"fill": c|-1, "stroke": c|-1, "w": n, "al": 0 inside | 1 center | 2 outside}
 pub fn style_from<C: Col>(d: &Value) -> PrimitiveStyle<C> {
-    let mut b = PrimitiveStyleBuilder::new();
-    if i(&d["fill"]) >= 0 {
-        b = b.fill_color(C::from_u32(i(&d["fill"]) as u32));
-    }
-    if i(&d["stroke"]) >= 0 {
-        b = b.stroke_color(C::from_u32(i(&d["stroke"]) as u32));
-    }
+    // The same style along several routes of the public API (chosen by a hash of the style): the builder in two call
+    // orders, a builder made from a finished style, the public fields, with_fill / with_stroke where they apply.
+    let fill = if i(&d["fill"]) >= 0 { Some(C::from_u32(i(&d["fill"]) as u32)) } else { None };
+    let stroke = if i(&d["stroke"]) >= 0 { Some(C::from_u32(i(&d["stroke"]) as u32)) } else { None };
     // optional "wreal": the real stroke width when it does not fit the 32-bit integers of the trace checker ("w" then
     // holds an equivalent smaller width, see egv_c06)
-    b = b.stroke_width(d.get("wreal").and_then(|v| v.as_str()).map(|v| v.parse::<u32>().expect("wreal")).unwrap_or(i(&d["w"]) as u32));
-    b = b.stroke_alignment(match i(&d["al"]) {
+    let w = d.get("wreal").and_then(|v| v.as_str()).map(|v| v.parse::<u32>().expect("wreal")).unwrap_or(i(&d["w"]) as u32);
+    let al = match i(&d["al"]) {
         0 => StrokeAlignment::Inside,
         1 => StrokeAlignment::Center,
         _ => StrokeAlignment::Outside,
-    });
+    };
     // optional: {"dot": 1} selects the dotted stroke style (the default is solid)
-    if d["dot"].as_i64() == Some(1) {
-        b = b.stroke_style(embedded_graphics::primitives::StrokeStyle::Dotted);
+    let dotted = d["dot"].as_i64() == Some(1);
+    let route = (i(&d["fill"]) + 3 * i(&d["stroke"]) + 5 * w as i64 + 7 * i(&d["al"])).rem_euclid(5);
+    let full = |b: PrimitiveStyleBuilder<C>| {
+        let mut b = b;
+        if let Some(c) = fill {
+            b = b.fill_color(c);
+        }
+        if let Some(c) = stroke {
+            b = b.stroke_color(c);
+        }
+        b = b.stroke_width(w).stroke_alignment(al);
+        if dotted {
+            b = b.stroke_style(embedded_graphics::primitives::StrokeStyle::Dotted);
+        }
+        b
+    };
+    match route {
+        1 => {
+            // reverse call order
+            let mut b = PrimitiveStyleBuilder::new();
+            if dotted {
+                b = b.stroke_style(embedded_graphics::primitives::StrokeStyle::Dotted);
+            }
+            b = b.stroke_alignment(al).stroke_width(w);
+            if let Some(c) = stroke {
+                b = b.stroke_color(c);
+            }
+            if let Some(c) = fill {
+                b = b.fill_color(c);
+            }
+            b.build()
+        }
+        2 => {
+            // a finished style with OTHER settings converted back into a builder, everything set again / reset
+            let other = PrimitiveStyleBuilder::new().fill_color(C::from_u32(1)).stroke_color(C::from_u32(0)).stroke_width(9).stroke_alignment(StrokeAlignment::Outside).build();
+            let mut b = PrimitiveStyleBuilder::from(&other);
+            if fill.is_none() {
+                b = b.reset_fill_color();
+            }
+            if stroke.is_none() {
+                b = b.reset_stroke_color();
+            }
+            full(b).build()
+        }
+        3 => {
+            let mut st = PrimitiveStyle::<C>::new();
+            st.fill_color = fill;
+            st.stroke_color = stroke;
+            st.stroke_width = w;
+            st.stroke_alignment = al;
+            if dotted {
+                st.stroke_style = embedded_graphics::primitives::StrokeStyle::Dotted;
+            }
+            st
+        }
+        4 if !dotted && al == StrokeAlignment::Center && stroke.is_none() && w == 0 && fill.is_some() => PrimitiveStyle::with_fill(fill.unwrap()),
+        4 if !dotted && al == StrokeAlignment::Center && fill.is_none() && stroke.is_some() => PrimitiveStyle::with_stroke(stroke.unwrap(), w),
+        _ => full(PrimitiveStyleBuilder::new()).build(),
     }
-    b.build()
 }
 pub fn style_desc(fill: i64, stroke: i64, w: u32, al: u32) -> Value {
     json!({"fill":fill,"stroke":stroke,"w":w,"al":al})
